@@ -25,7 +25,9 @@ func genFragSpec(r *hx.Rng, maxN int) fragSpec {
 	fs.video = r.Intn(4) != 0
 	fs.timescale = uint32(r.Pick(1000, 12800, 90000, 48000, 25))
 	fs.styp = true
-	fs.optimize = r.Intn(3) == 0
+	fs.defaults = r.Pick(0, 0, 1, 2, 2)
+	fs.baseMode = r.Pick(0, 0, 0, 1, 2, 3)
+	fs.elst = r.Intn(6) == 0
 	fs.trackID = uint32(r.Pick(1, 1, 1, 2, 7))
 	n := r.Range(1, maxN)
 	base := uint32(r.Pick(1, 2, 40, 512, 1024, 3000, 1001))
@@ -76,7 +78,46 @@ func genFragSpec(r *hx.Rng, maxN int) fragSpec {
 		dts += uint64(s.dur)
 	}
 	fs.segLens = genSegLens(r, n)
+	// uniform stream: equal durations, sizes and (except the first) flags, so that everything can live in
+	// tfhd defaults / first-sample-flags
+	if r.Intn(5) == 0 {
+		for i := range fs.samples {
+			fs.samples[i].dur = base
+			fs.samples[i].dts = fs.samples[0].dts + uint64(i)*uint64(base)
+			fs.samples[i].data = sampleBytes(int(fs.trackID), i+1, 9)
+			if i > 0 {
+				fs.samples[i].flags = 0x00010000
+			}
+		}
+	}
+	// several truns per traf in about half of the inputs
+	if r.Intn(2) == 0 {
+		for _, fl := range fs.segLens {
+			for _, c := range fl {
+				fs.trunLens = append(fs.trunLens, splitCount(r, c))
+			}
+		}
+	}
 	return fs
+}
+
+// splitCount cuts c samples into 1-4 truns (each with at least one sample).
+func splitCount(r *hx.Rng, c int) []int {
+	if c <= 1 || r.Intn(4) == 0 {
+		return []int{c}
+	}
+	k := r.Range(2, 4)
+	if k > c {
+		k = c
+	}
+	out := make([]int, k)
+	for i := range out {
+		out[i] = 1
+	}
+	for left := c - k; left > 0; left-- {
+		out[r.Intn(k)]++
+	}
+	return out
 }
 
 // addGap shifts the decode times of everything from some fragment boundary on: a timeline discontinuity
@@ -149,10 +190,19 @@ func genSegLens(r *hx.Rng, n int) [][]int {
 
 func fragWitness(fs fragSpec) string {
 	var sl []string
+	fi := 0
 	for _, fl := range fs.segLens {
 		p := make([]string, len(fl))
 		for i, x := range fl {
 			p[i] = strconv.Itoa(x)
+			if fi < len(fs.trunLens) && len(fs.trunLens[fi]) > 1 {
+				q := make([]string, len(fs.trunLens[fi]))
+				for j, y := range fs.trunLens[fi] {
+					q[j] = strconv.Itoa(y)
+				}
+				p[i] = strings.Join(q, "+")
+			}
+			fi++
 		}
 		sl = append(sl, strings.Join(p, "."))
 	}
@@ -160,8 +210,8 @@ func fragWitness(fs fragSpec) string {
 	for i, s := range fs.samples {
 		ss[i] = fmt.Sprintf("%d:%d:%d:%x:%d", s.dts, s.dur, s.cto, s.flags, len(s.data))
 	}
-	return fmt.Sprintf("v=%d,ts=%d,styp=%d,opt=%d,noinit=%d,tid=%d,segs=%s,samples=%s", b2i(fs.video), fs.timescale, b2i(fs.styp),
-		b2i(fs.optimize), b2i(fs.noInit), fs.trackID, strings.Join(sl, "/"), strings.Join(ss, "/"))
+	return fmt.Sprintf("v=%d,ts=%d,styp=%d,opt=%d,base=%d,extra=%d,elst=%d,noinit=%d,tid=%d,segs=%s,samples=%s", b2i(fs.video), fs.timescale,
+		b2i(fs.styp), fs.defaults, fs.baseMode, fs.extra, b2i(fs.elst), b2i(fs.noInit), fs.trackID, strings.Join(sl, "/"), strings.Join(ss, "/"))
 }
 
 func parseFragWitness(w string) (fragSpec, error) {
@@ -181,7 +231,13 @@ func parseFragWitness(w string) (fragSpec, error) {
 		case "styp":
 			fs.styp = v == "1"
 		case "opt":
-			fs.optimize = v == "1"
+			fs.defaults, _ = strconv.Atoi(v)
+		case "base":
+			fs.baseMode, _ = strconv.Atoi(v)
+		case "extra":
+			fs.extra, _ = strconv.Atoi(v)
+		case "elst":
+			fs.elst = v == "1"
 		case "noinit":
 			fs.noInit = v == "1"
 		case "tid":
@@ -191,8 +247,15 @@ func parseFragWitness(w string) (fragSpec, error) {
 			for _, sg := range strings.Split(v, "/") {
 				var fl []int
 				for _, x := range strings.Split(sg, ".") {
-					c, _ := strconv.Atoi(x)
+					var tl []int
+					c := 0
+					for _, y := range strings.Split(x, "+") {
+						v, _ := strconv.Atoi(y)
+						tl = append(tl, v)
+						c += v
+					}
 					fl = append(fl, c)
+					fs.trunLens = append(fs.trunLens, tl)
 				}
 				fs.segLens = append(fs.segLens, fl)
 			}
@@ -465,6 +528,7 @@ func runFragmentify(fs fragSpec, duration uint32) (res fragyResult) {
 		all = append(all, fl...)
 	}
 	one.segLens = [][]int{all}
+	one.noInit = false
 	data, err := encodeFragmented(one, true)
 	if err != nil {
 		return fragyResult{class: "synth-error", msg: err.Error()}
@@ -573,6 +637,11 @@ func runCombine(v, a fragSpec, t tools) (res combResult) {
 		}
 		one := p.fs
 		one.segLens = [][]int{{len(p.fs.samples)}}
+		one.extra = 0 // the tool insists on exactly one traf per input fragment
+		one.trunLens = nil
+		if len(p.fs.trunLens) > 0 && len(p.fs.samples) > 0 {
+			one.trunLens = [][]int{regroup(p.fs.trunLens, len(p.fs.samples))}
+		}
 		init, err := buildInit(one)
 		if err != nil {
 			return combResult{class: "synth-error", msg: err.Error()}
@@ -581,11 +650,11 @@ func runCombine(v, a fragSpec, t tools) (res combResult) {
 		if err := init.Encode(&ib); err != nil {
 			return combResult{class: "synth-error", msg: err.Error()}
 		}
-		segs, err := buildSegments(one)
+		segs, err := buildSegments(one, nil)
 		if err != nil || len(segs) != 1 {
 			return combResult{class: "synth-error", msg: fmt.Sprint(err)}
 		}
-		if err := segs[0].Encode(&mb); err != nil {
+		if err := encodeSegments(&mb, segs, 0, one); err != nil {
 			return combResult{class: "synth-error", msg: err.Error()}
 		}
 		_ = os.WriteFile(filepath.Join(d, "init.mp4"), ib.Bytes(), 0o644)
@@ -594,9 +663,17 @@ func runCombine(v, a fragSpec, t tools) (res combResult) {
 		if tid == 0 {
 			tid = 1
 		}
-		// the input as a reader WITH the init segment sees it
-		whole := append(append([]byte{}, ib.Bytes()...), mb.Bytes()...)
-		inSegs, _, err := inputAsRead(whole, tid)
+		// the input as a reader WITH the init segment sees it (the media file is decoded on its own:
+		// absolute base-data-offsets refer to positions in 1.m4s)
+		fi, err := decodeBytes(ib.Bytes())
+		if err != nil || fi.Init == nil {
+			return combResult{class: "synth-error", msg: fmt.Sprint("init: ", err)}
+		}
+		fm, err := decodeBytes(mb.Bytes())
+		if err != nil {
+			return combResult{class: "synth-error", msg: err.Error()}
+		}
+		inSegs, err := segmentSamples(fm, trexFor(fi.Init, tid), tid)
 		if err != nil {
 			return combResult{class: "synth-error", msg: err.Error()}
 		}
@@ -696,4 +773,58 @@ func checkCombine(v, a fragSpec, t tools, evals *int) string {
 		}
 	}
 	return "ok"
+}
+
+// regroup turns the per-fragment trun sizes of a spec into the trun sizes of ONE fragment holding all n
+// samples (used where a tool wants exactly one fragment per input).
+func regroup(trunLens [][]int, n int) []int {
+	var out []int
+	left := n
+	for _, tl := range trunLens {
+		for _, c := range tl {
+			if c > left {
+				c = left
+			}
+			if c > 0 {
+				out = append(out, c)
+				left -= c
+			}
+		}
+	}
+	if left > 0 {
+		out = append(out, left)
+	}
+	if len(out) > 6 { // keep the number of truns small: merge the tail
+		tail := 0
+		for _, c := range out[5:] {
+			tail += c
+		}
+		out = append(out[:5], tail)
+	}
+	return out
+}
+
+// structureOf writes the input as the tool collects it: fragments '|', truns ';', samples '/'.
+func structureOf(fs fragSpec, input []flat) string {
+	var frs []string
+	k, fi := 0, 0
+	for _, fl := range fs.segLens {
+		for _, n := range fl {
+			truns := []int{n}
+			if fi < len(fs.trunLens) && len(fs.trunLens[fi]) > 0 {
+				truns = fs.trunLens[fi]
+			}
+			fi++
+			var ts []string
+			for _, tn := range truns {
+				if k+tn > len(input) {
+					tn = len(input) - k
+				}
+				ts = append(ts, modelSamples(input[k:k+tn]))
+				k += tn
+			}
+			frs = append(frs, strings.Join(ts, ";"))
+		}
+	}
+	return strings.Join(frs, "|")
 }
